@@ -38,6 +38,11 @@ def main(argv=None):
     # ---------------------------------------------------------------- replay
     if args.replay:
         w = json.loads(Path(args.replay).read_text())
+        want_hs = (w.get("ambient") or {}).get("PYTHONHASHSEED")
+        if want_hs not in (None, "", os.environ.get("PYTHONHASHSEED")):
+            # the witness was observed under another hash seed: replay under that one
+            env = dict(os.environ, PYTHONHASHSEED=str(want_hs))
+            os.execve(sys.executable, [sys.executable, "-m", "jsverif.cli"] + list(argv or sys.argv[1:]), env)
         case = w.get("case", w)
         ctx = core.Ctx(pid, args.tier, seed, replay=True)
         p = core.run_shard(mod, ctx, replay_case=case)
@@ -68,6 +73,27 @@ def main(argv=None):
         if budget:
             ctx.deadline = time.time() + budget
         partials.append(core.run_shard(mod, ctx))
+        lane = getattr(mod, "HASHSEED_LANE", 6)
+        if lane and not os.environ.get("JSVERIF_NO_HASHSEED_LANE"):
+            # a further slice of cases (shard 1 of `lane`) in a subprocess under another hash seed:
+            # iteration order of string sets etc. is an input the library must not depend on
+            with tempfile.TemporaryDirectory(prefix="jsverif-") as td:
+                out = Path(td) / "lane.json"
+                env = dict(os.environ, PYTHONHASHSEED=str((seed * 131 + 7919) % 4294967295))
+                cmd = [sys.executable, "-m", "jsverif.cli", pid, "--tier", args.tier,
+                       "--shard", f"1/{lane}", "--partial-out", str(out)]
+                try:
+                    pr = subprocess.run(cmd, cwd=str(core.ROOT), env=env, capture_output=True, text=True,
+                                        timeout=hard)
+                    if out.exists():
+                        lp = json.loads(out.read_text())
+                        lp.setdefault("counters", {})["cases_run_under_a_second_hash_seed"] = \
+                            lp.get("evaluations", 0) or len(lp.get("distinct", []))
+                        partials.append(lp)
+                    else:
+                        inconclusive.append("hash-seed lane produced no result: " + (pr.stdout + pr.stderr)[-800:])
+                except subprocess.TimeoutExpired:
+                    inconclusive.append("hash-seed lane hit the wall-clock watchdog")
     else:
         with tempfile.TemporaryDirectory(prefix="jsverif-") as td:
             procs = []
@@ -79,8 +105,11 @@ def main(argv=None):
                     "--tier", args.tier, "--shard", f"{i}/{n}",
                     "--partial-out", str(out),
                 ]
+                # every shard runs under its own hash seed (iteration order of string sets and the
+                # like is an input the library must not depend on); recorded in every witness
+                env = dict(os.environ, PYTHONHASHSEED=str((seed * 131 + i * 7919) % 4294967295))
                 procs.append((i, out, log, subprocess.Popen(
-                    cmd, stdout=log, stderr=subprocess.STDOUT, cwd=str(core.ROOT)
+                    cmd, stdout=log, stderr=subprocess.STDOUT, cwd=str(core.ROOT), env=env
                 )))
             deadline = time.time() + hard
             for i, out, log, pr in procs:
